@@ -2046,6 +2046,10 @@ int32_t tls13Encrypt(ssl_t *ssl,
     ssl->outRecType = recordType;
     ssl->outRecLen = recordLen;
 
+    if (sslWriteSeqExhausted(ssl))
+    {
+        return PS_LIMIT_FAIL;
+    }
     return ssl->encrypt(ssl, pt, ct, ptLen);
 }
 
